@@ -22,6 +22,8 @@ OWNERS = {
     "QSopt_strongbranch": "strong branching works on the basis", "QScompute_row_norms": "stores row norms with the basis",
     "QSfree_prob": "destructor", "QSexact_solver": "exact driver: loads candidate bases into the rational problem",
     "QSexact_basis_optimalstatus": "verdict function: loads the supplied basis", "QSexact_basis_dualstatus": "verdict function: loads the supplied basis",
+    "QSchange_senses": "normalises the row status of a row that is no longer ranged (UPPER is a status of ranged rows only)",
+    "QSchange_sense": "wrapper of QSchange_senses",
     "QSexact_verify": "verdict function: loads the supplied basis", "QSexact_optimal_test": "loads the basis it was given to record the optimal solution",
 }
 FIELDS = ("cstat", "rstat", "nstruct", "nrows")
